@@ -43,6 +43,8 @@ bool mi_option_is_enabled(mi_option_t o) { return nd_bool(); }
 long mi_option_get_clamp(mi_option_t o, long lo, long hi) { long v = nd_long(); ASSUME(v >= lo && v <= hi); return v; }
 size_t mi_option_get_size(mi_option_t o) { return nd_size(); }
 size_t _mi_os_page_size(void) { return 4096; }
+uintptr_t _mi_random_next(mi_random_ctx_t* ctx) { return nd_u64(); }
+void _mi_random_split(mi_random_ctx_t* ctx, mi_random_ctx_t* new_ctx) { }
 
 static struct { mi_segment_t seg; } SEGO;
 /* the page area as machine words (free-list links are word accesses; BS is a multiple of 8); one spare block */
